@@ -102,9 +102,6 @@ func ReadIndex(r io.Reader) (*Index, error) {
 	if err != nil {
 		return nil, err
 	}
-	if n == 0 {
-		return nil, nil
-	}
 	idx.idx, err = internal.ReadIndex(r, n, "bam")
 	if err != nil {
 		return nil, err
